@@ -879,6 +879,18 @@ func flowsOnlyToErrors(v ssa.Value, seen map[ssa.Value]bool) bool {
 			if !flowsOnlyToErrors(x, seen) {
 				return false
 			}
+		case *ssa.BinOp:
+			// text put together piece by piece ("row " + n + …)
+			if x.Op != token.ADD || !isString(x.Type()) {
+				return false
+			}
+			if !flowsOnlyToErrors(x, seen) {
+				return false
+			}
+		case *ssa.Convert:
+			if !flowsOnlyToErrors(x, seen) {
+				return false
+			}
 		case *ssa.Call:
 			if bi, ok := x.Call.Value.(*ssa.Builtin); ok && bi.Name() == "append" {
 				if !flowsOnlyToErrors(x, seen) {
@@ -891,8 +903,8 @@ func flowsOnlyToErrors(v ssa.Value, seen map[ssa.Value]bool) bool {
 				return false
 			}
 			switch callee.String() {
-			case "fmt.Errorf":
-			case "fmt.Sprintf", "strings.Join":
+			case "fmt.Errorf", "errors.New":
+			case "fmt.Sprintf", "strings.Join", "strconv.Itoa", "strconv.FormatInt", "fmt.Sprint":
 				if !flowsOnlyToErrors(x, seen) {
 					return false
 				}
